@@ -2,7 +2,10 @@
 Driver for C07: runs the model of `evaluate` (Model/Evaluate.lean) with the Lean twin of the
 harness's recording forecaster `Rec` (harness/corr/C07.py) and the harness's metrics.  Import-free.
 
-  eval  <cv> <strategy r|u|x> <metric> <return_data T|F> <fit tag none|int> <fail none|k:kind> <labels> <values> <X>
+  eval  <cv> <strategy r|u|x> <metric> <return_data T|F> <fit tag none|int> <fail none|k:kind> <pre> <labels> <values> <X>
+        <pre> = what the forecaster instance went through before this call:
+          `none` (fresh) | `ops=<call>;<call>…` (calls in the trace encoding) |
+          `ev=<cv>!<strategy>!<labels>!<values>!<X>` (the same instance was evaluated before, metric asym)
   split <train> <test> <fh> <labels> <values> <X>
 
 cv: `s|fh|wl|step|iw|sww`, `e|fh|wl|step|sww`, `w|fh|wl`, `c|cutoffs|fh|wl`, `ns`.
@@ -180,17 +183,63 @@ def showData (rows : List (Row Rat Rat)) : String :=
   | none => "none"
   | some ds => ";".intercalate (ds.map (fun (a, b, p) => s!"{showSeries a}!{showSeries b}!{showSeries p}"))
 
+/-! ### the forecaster's history before the call -/
+
+def parseSer? (s : String) : Option S :=
+  match s.splitOn ":" with
+  | [ls, vs] => parseSeries? ls vs
+  | _ => none
+
+def parseCall? (s : String) : Option (Call Rat (List Rat)) :=
+  match s.splitOn "~" with
+  | ["F", y, x, fh, tag] => do pure (.fit (← parseSer? y) (← parseX? x) (← parseIntList? fh) (← parseOInt? tag))
+  | ["U", y, x] => do pure (.update (← parseSer? y) (← parseX? x))
+  | ["P", fh, x] => do pure (.predict (← parseIntList? fh) (← parseX? x))
+  | _ => none
+
+/-- the state a call leaves the recording forecaster in (a call that raises changes nothing
+but the call counter) -/
+def applyCall (m : Machine RecState Rat (List Rat)) (st : RecState) : Call Rat (List Rat) → RecState
+  | .fit y X fh tag => match m.fit st y X fh tag with | .ok s => s | .error _ => { st with ncalls := st.ncalls + 1 }
+  | .update y X => match m.update st y X with | .ok s => s | .error _ => { st with ncalls := st.ncalls + 1 }
+  | .predict fh X => match m.predict st fh X with | .ok (s, _) => s | .error _ => { st with ncalls := st.ncalls + 1 }
+
+def replay (m : Machine RecState Rat (List Rat)) (st : RecState) (cs : List (Call Rat (List Rat))) : RecState :=
+  cs.foldl (applyCall m) st
+
+/-- the calls of the history and the state it leaves -/
+def parsePre? (fail : Option (Nat × Err)) (s : String) : Option (List (Call Rat (List Rat)) × RecState) :=
+  if s == "none" then some ([], {})
+  else if s.startsWith "ops=" then do
+    let cs ← ((s.drop 4).toString.splitOn ";").mapM parseCall?
+    pure (cs, replay (recMachine fail) {} cs)
+  else if s.startsWith "ev=" then
+    match (s.drop 3).toString.splitOn "!" with
+    | [cv, strat, yl, yv, x] => do
+      let cv ← parseCV? cv
+      let strat ← parseStrategy? strat
+      let y ← parseSeries? yl yv
+      let X ← parseX? x
+      let r := evaluate (recMachine fail) dfltMetric ({} : RecState) cv y X strat (.some ⟨some "asym", mAsym⟩) none false
+      pure (r.1, replay (recMachine fail) {} r.1)
+    | _ => none
+  else none
+
 def handle (toks : List String) : String :=
   match toks with
-  | ["eval", cv, strat, met, rd, fp, fail, yl, yv, x] =>
+  | ["eval", cv, strat, met, rd, fp, fail, pre, yl, yv, x] =>
     match parseCV? cv, parseStrategy? strat, parseScoring? met, parseBool? rd, parseOInt? fp, parseFail? fail,
           parseSeries? yl yv, parseX? x with
     | some cv, some strat, some sc, some rd, some fp, some fail, some y, some X =>
-      let r := evaluate (recMachine fail) dfltMetric ({} : RecState) cv y X strat sc fp rd
-      match r.2 with
-      | .error e => s!"err={showErr e} name=- score=- len=- cut=- data=- trace={showTrace r.1}"
-      | .ok t =>
-        s!"err=none name={t.scoreName} score={showRatList (t.rows.map (·.score))} len={showNatList (t.rows.map (·.lenTrain))} cut={showIntList (t.rows.map (·.cutoff))} data={showData t.rows} trace={showTrace r.1}"
+      match parsePre? fail pre with
+      | none => "bad-op"
+      | some (preCalls, st0) =>
+        let r := evaluate (recMachine fail) dfltMetric st0 cv y X strat sc fp rd
+        let tr := preCalls ++ r.1
+        match r.2 with
+        | .error e => s!"err={showErr e} name=- score=- len=- cut=- data=- npre={preCalls.length} trace={showTrace tr}"
+        | .ok t =>
+          s!"err=none name={t.scoreName} score={showRatList (t.rows.map (·.score))} len={showNatList (t.rows.map (·.lenTrain))} cut={showIntList (t.rows.map (·.cutoff))} data={showData t.rows} npre={preCalls.length} trace={showTrace tr}"
     | _, _, _, _, _, _, _, _ => "bad-op"
   | ["split", train, test, fh, yl, yv, x] =>
     match parseIntList? train, parseIntList? test, parseIntList? fh, parseSeries? yl yv, parseX? x with
